@@ -170,6 +170,13 @@ def run_case(case):
             res["counters"]["discarded_points"] = res["counters"].get("discarded_points", 0) + 1
             continue
         ref = model.RefModel(spec, ph)
+        rt = 1e-9
+        if cls == "SS":
+            amp = ref.amplification()
+            if amp > 1e5:
+                res["counters"]["discarded_points"] = res["counters"].get("discarded_points", 0) + 1
+                continue
+            rt = max(1e-9, 1e-13 * amp)
         scale = max([1.0] + [float(np.max(np.abs(v))) for k, v in ph.items() if isinstance(v, np.ndarray) and v.size])
         bad = False
         for c in spec["constraints"]:
@@ -178,7 +185,7 @@ def run_case(case):
             if not C.finite([v for _, v in exp]):
                 continue
             sc = max([scale] + [abs(v) for _, v in exp])
-            un_e, un_o = nlp.match_multiset(exp, obs, scale=sc, rtol=1e-9)
+            un_e, un_o = nlp.match_multiset(exp, obs, scale=sc, rtol=rt)
             res["evals"] += 1
             res["counters"]["constraints_compared"] += 1
             res["counters"]["instances"] += ninst
@@ -192,7 +199,7 @@ def run_case(case):
                     c2 = dict(c)
                     c2["include_last"] = False
                     exp2, _ = ref.constraint_atoms(c2)
-                    e2, o2 = nlp.match_multiset(exp2, obs, scale=sc, rtol=1e-9)
+                    e2, o2 = nlp.match_multiset(exp2, obs, scale=sc, rtol=rt)
                     if not e2 and not o2 and max(-o for o in offs) <= spec["method"]["N"]:
                         mech = "C04|final-node-instance-dropped|negative-offset"
                 if mech == "C04|instance-mismatch" and un_e and not un_o and all(
